@@ -30,6 +30,7 @@ def bounds(tier):
 
 def cases(tier):
     yield {"kind": "free-running"}
+    yield {"kind": "single-large"}
     for ri, px, ki in itertools.product(range(len(REGIONS)), (1.0, 0.5), range(len(KERNELS))):
         yield {"kind": "relations", "region": ri, "pixel": px, "kernel": ki}
     for ki in (0, 2, 5, 11, 13):
@@ -54,6 +55,8 @@ def run_case(case, ctx):
         relations(case, ctx)
     elif case["kind"] == "schedules":
         schedules(case, ctx)
+    elif case["kind"] == "single-large":
+        single_large(ctx)
     else:
         free_running(ctx)
 
@@ -176,6 +179,33 @@ def schedules(case, ctx):
             if _seam.completions == before and nj > 1:
                 ctx.count("seam_unused")
         ctx.outcome(("sched", size, [np.round(np.asarray(s), 9).tolist() for s in serial][:1]))
+
+
+def single_large(ctx):
+    """ONE large diagram with n_jobs (a transform that splits a big diagram across workers must still
+    return the serial image), under every completion order of the controlled backend."""
+    from checks.c04 import big_diagram
+
+    for ki in (0, 2, 9):
+        im = make(1, 0.5, ki, WEIGHTS[0])
+        for n in (17, 33, 301):
+            A = np.array(big_diagram(n), dtype=float)
+            serial = np.asarray(ctx.call(im.transform, A))
+            for nj in (2, 3, 4):
+                with _seam.installed():
+                    def run(ch):
+                        _seam.chooser = ch
+                        ctx.trans()
+                        return im.transform(A, n_jobs=nj)
+
+                    for prefix, tr, out in explore(run, None, use_state_keys=False, max_runs=30):
+                        ctx.state(("single-large", ki, n, nj, [t[2] for t in tr]))
+                        ctx.valid()
+                        if np.asarray(out).shape != serial.shape or not np.allclose(np.asarray(out), serial, rtol=0, atol=1e-12 * max(1.0, np.abs(serial).max())):
+                            ctx.violation("parallel-differs", "transform(one %d-point diagram, n_jobs=%d) differs from the serial image" % (n, nj),
+                                          observed=float(np.abs(np.asarray(out) - serial).max()) if np.asarray(out).shape == serial.shape else list(np.asarray(out).shape),
+                                          extra={"kernel": KERNELS[ki], "n": n, "n_jobs": nj})
+            ctx.nontriv("single_large_diagram_parallel", key=("single-large", ki, n))
 
 
 def free_running(ctx):
